@@ -15,7 +15,7 @@ import random
 
 import numpy as np
 
-from checks.c15 import explore_em, build_hypergraph, rows_of, EM_INV
+from checks.c15 import explore_em, build_hypergraph, rows_of, single_threaded, EM_INV
 from harness import cases as K_
 from harness import emtrace as EM
 from harness import tlc
@@ -244,7 +244,7 @@ def end_event(r, ends, code):
 
 
 def validate(res, tier, rng, only=None):
-    n_cfg = 72 if tier == "quick" else 1200
+    n_cfg = 240 if tier == "quick" else 3000
     cfgs = [config(rng, i, tier) for i in range(n_cfg)] if only is None else only
     cases, cidx, traces, tidx, infos = [], [], [], [], []
     for i, cfg in enumerate(cfgs):
@@ -307,7 +307,8 @@ def run(tier, seed):
     t0 = time.time()
     explore(res, tier)
     t1 = time.time()
-    validate(res, tier, rng)
+    with single_threaded():
+        validate(res, tier, rng)
     res.coverage["phase_wall_s"] = {"explore": round(t1 - t0, 1), "fit_and_validate": round(time.time() - t1, 1)}
     res.assume(
         "TLC has no reals: log-likelihood values enter TLC as integer ranks (exact rank for the bookkeeping of the maximum; tolerance rank, "
